@@ -6,8 +6,7 @@ Import ListNotations.
 
 (** observation of parse_and_group: error class, or the groups (key, member file ids) and the number
     of warnings issued by dcmstack.  Canonical form: members ascending, groups ordered by members. *)
-Inductive gobs := GErr (e : err) | GOk (gs : list (list gval * list nat)) (w : nat) (ord : list nat).
-(* [ord]: the smallest member id of every group, in the order of the returned OrderedDict *)
+Inductive gobs := GErr (e : err) | GOk (gs : list (list gval * list nat)) (w : nat).
 
 (** observation of parse_and_stack: error class, or per group the ids of the files that ended up in
     the stack (ascending; the list of groups ordered lexicographically), and the warnings count *)
@@ -54,20 +53,24 @@ Fixpoint list_eqb {A} (eqb : A -> A -> bool) (a b : list A) : bool :=
 Definition canon_groups (gs : list (group nat)) : list (list gval * list nat) :=
   sort_by snd (map (fun g => (fst g, sort_nat (snd g))) gs).
 
-Definition grp_eqb (a b : list gval * list nat) : bool :=
-  key_eqb (fst a) (fst b) && list_eqb Nat.eqb (snd a) (snd b).
-
+(** [a] = the model's result, [b] = the observation.  The property says "raises" without naming a class
+    and "skipped with a warning": raised-vs-not-raised is compared, and the observed number of warnings
+    (all warnings of the call minus those pydicom / the extractor issue for the same files on their own)
+    must be at least the model's count.  The order of the returned dict is not compared.
+    Group keys: the property says a group is keyed by its group-by values; which member supplies the value
+    of a tolerance-compared key is not stated, so entry i of an observed key must be (Python ==) the value
+    of group_by[i] of SOME member of that group ([key_ok], applied by [check]). *)
 Definition gobs_eqb (a b : gobs) : bool :=
   match a, b with
-  | GErr x, GErr y => err_eqb x y
-  | GOk g w o, GOk g' w' o' => list_eqb grp_eqb g g' && Nat.eqb w w' && list_eqb Nat.eqb o o'
+  | GErr _, GErr _ => true
+  | GOk g w, GOk g' w' => list_eqb (list_eqb Nat.eqb) (map snd g) (map snd g') && Nat.leb w w'
   | _, _ => false
   end.
 
 Definition sobs_eqb (a b : sobs) : bool :=
   match a, b with
-  | SErr x, SErr y => err_eqb x y
-  | SOk s w, SOk s' w' => list_eqb (list_eqb Nat.eqb) s s' && Nat.eqb w w'
+  | SErr _, SErr _ => true
+  | SOk s w, SOk s' w' => list_eqb (list_eqb Nat.eqb) s s' && Nat.leb w w'
   | _, _ => false
   end.
 
@@ -79,7 +82,7 @@ Definition reads (c : case) (order : list nat) : list (rd nat) :=
 Definition model_group (c : case) (p : plist) : gobs :=
   match parse_and_group (c_group_by c) (c_close c) group_atol (p_warn p) (reads c (p_order p)) with
   | Err e => GErr e
-  | Ok (gs, w) => GOk (canon_groups gs) w (map (fun g => hd 0%nat (sort_nat (snd g))) gs)
+  | Ok (gs, w) => GOk (canon_groups gs) w
   end.
 
 (** the stack object is represented by the list of accepted file ids *)
@@ -91,13 +94,24 @@ Definition table_add (tb : list (list nat * nat * option err)) (st : list nat) (
   end.
 
 Definition model_stack (c : case) (s : slist) : sobs :=
-  match parse_and_stack (list nat) (table_add (s_table s)) (c_group_by c) group_atol (s_warn s) [] (reads c (s_order s)) with
+  match parse_and_stack (list nat) (table_add (s_table s)) (@length nat) (c_group_by c) group_atol (s_warn s) [] (reads c (s_order s)) with
   | Err e => SErr e
   | Ok (sts, w) => SOk (sort_by (fun x => x) (map (fun ks => sort_nat (snd ks)) sts)) w
   end.
 
+Definition meta_of (c : case) (i : nat) : meta :=
+  match nth i (c_files c) (Fault ECrash) with Data _ _ m => m | Fault _ => fun _ => GNone end.
+
+Definition key_ok (c : case) (g : list gval * list nat) : bool :=
+  Nat.eqb (length (fst g)) (length (c_group_by c)) &&
+  forallb (fun gk => existsb (fun i => gval_eqb (meta_of c i (fst gk)) (snd gk)) (snd g))
+          (combine (c_group_by c) (fst g)).
+
+Definition keys_ok (c : case) (o : gobs) : bool :=
+  match o with GErr _ => true | GOk gs _ => forallb (key_ok c) gs end.
+
 Definition check (c : case) : bool :=
-  forallb (fun p => gobs_eqb (model_group c p) (p_obs p)) (c_lists c) &&
+  forallb (fun p => gobs_eqb (model_group c p) (p_obs p) && keys_ok c (p_obs p)) (c_lists c) &&
   forallb (fun s => sobs_eqb (model_stack c s) (s_obs s)) (c_stacks c).
 
 Definition show (c : case) := (map (model_group c) (c_lists c), map (model_stack c) (c_stacks c)).
